@@ -19,6 +19,7 @@
 //!   addas | subas | subneg | negas  [be=] x= y=  the in-place trait forms (res = x)
 //!   ntt | intt  p= [be=] n= x=<4n u64>   ntt_ref / intt_ref with a fresh NttTable(Inv)::new(n) (be=ref|avx: NttDFTExecute)
 //!   tab p= n=                            bit sizes, level metadata and the whole powomega array of both tables
+//!   packl|packr|ppackl|ppackr be=ref|avx rows= stride= blk= x= [y=]   the x2-block pack kernels of the convolution
 //!   spm inp= po= h= mask= | red x= h= mask= cst= | pow x= n= q=      split_precompmul, modq_red, modq_pow
 //!   pipe be=<ref|avx> a= b=<i64,…>       HAL at n = 1 (transforms are the identity there):
 //!                                        svp_prepare(a); dft_apply(b); svp_apply_dft_to_dft; idft_apply → i128 per b
@@ -32,7 +33,8 @@ use poulpy_cpu_avx::NTT120Avx;
 use poulpy_cpu_ref::NTT120Ref;
 use poulpy_cpu_ref::reference::ntt120::{
     NttAdd, NttAddAssign, NttCFromB, NttFromZnx64, NttMulBbb, NttMulBbc, NttMulBbc1ColX2, NttMulBbc2ColsX2, NttNegate, NttNegateAssign,
-    NttSub, NttSubAssign, NttSubNegateAssign, NttToZnx128,
+    NttPackLeft1BlkX2, NttPackRight1BlkX2, NttPairwisePackLeft1BlkX2, NttPairwisePackRight1BlkX2, NttSub, NttSubAssign, NttSubNegateAssign,
+    NttToZnx128,
     arithmetic::{add_bbb_ref, add_ccc_ref, b_from_znx64_masked_ref, b_from_znx64_ref, b_to_znx128_ref, c_from_b_ref, c_from_znx64_ref},
     mat_vec::{
         BaaMeta, BbbMeta, BbcMeta, vec_mat1col_product_baa_ref, vec_mat1col_product_bbb_ref, vec_mat1col_product_bbc_ref,
@@ -237,6 +239,34 @@ macro_rules! via_trait {
         fn $fname(op: &str, t: &[&str]) -> String {
             type BE = $be;
             match op {
+                "packl" => {
+                    let x: Vec<u64> = list(t, "x");
+                    let rows: usize = num(t, "rows");
+                    let mut r = vec![0u32; 16 * rows];
+                    <BE as NttPackLeft1BlkX2>::ntt_pack_left_1blk_x2(&mut r, &x, rows, num(t, "stride"), num(t, "blk"));
+                    join(&r)
+                }
+                "packr" => {
+                    let x: Vec<u32> = list(t, "x");
+                    let rows: usize = num(t, "rows");
+                    let mut r = vec![0u32; 16 * rows];
+                    <BE as NttPackRight1BlkX2>::ntt_pack_right_1blk_x2(&mut r, &x, rows, num(t, "stride"), num(t, "blk"));
+                    join(&r)
+                }
+                "ppackl" => {
+                    let (x, y): (Vec<u64>, Vec<u64>) = (list(t, "x"), list(t, "y"));
+                    let rows: usize = num(t, "rows");
+                    let mut r = vec![0u32; 16 * rows];
+                    <BE as NttPairwisePackLeft1BlkX2>::ntt_pairwise_pack_left_1blk_x2(&mut r, &x, &y, rows, num(t, "stride"), num(t, "blk"));
+                    join(&r)
+                }
+                "ppackr" => {
+                    let (x, y): (Vec<u32>, Vec<u32>) = (list(t, "x"), list(t, "y"));
+                    let rows: usize = num(t, "rows");
+                    let mut r = vec![0u32; 16 * rows];
+                    <BE as NttPairwisePackRight1BlkX2>::ntt_pairwise_pack_right_1blk_x2(&mut r, &x, &y, rows, num(t, "stride"), num(t, "blk"));
+                    join(&r)
+                }
                 "ntt" => {
                     let mut x: Vec<u64> = list(t, "x");
                     let tb = NttTable::<Primes30>::new(num(t, "n"));
